@@ -29,7 +29,7 @@ IRF_PLAIN = {"type": "multi-gaussian", "center": ["irf.c"], "width": ["irf.w"]}
 IRF_VALS = {"irf.c": 0.1, "irf.w": 0.12, "irf.dc": 650.0, "irf.d1": 0.05}
 
 
-def family(name, perm=None, irf="none", mc_order=None, ds_order=None):
+def family(name, perm=None, irf="none", mc_order=None, ds_order=None, d2_perm=None):
     """returns (model_dict, values, data dict)"""
     vals = dict(IRF_VALS) if irf != "none" else {}
     md = {"megacomplex": {}, "dataset": {"d1": {"megacomplex": []}}}
@@ -125,6 +125,15 @@ def family(name, perm=None, irf="none", mc_order=None, ds_order=None):
         for lab in ds_order:
             md["dataset"][lab] = copy.deepcopy(base)
             data[lab] = B.noisy_dataset(TIME, axes[lab], seed=3, salt="c06" + lab)
+        if d2_perm is not None and "d2" in md["dataset"]:
+            # d2 uses a twin of the megacomplex that declares the same labels (with their own parameters) in another order
+            m1 = md["megacomplex"]["m1"]
+            twin = copy.deepcopy(m1)
+            for field in ("compartments", "rates", "labels", "frequencies"):
+                if field in twin:
+                    twin[field] = [m1[field][i] for i in d2_perm]
+            md["megacomplex"]["m1p"] = twin
+            md["dataset"]["d2"]["megacomplex"] = ["m1p"]
     return md, vals, data
 
 
@@ -220,6 +229,14 @@ def case_ds_order(case):
     return core.ok(key=[case["family"], case["irf"], case["order"]], outcome=len(vs), violations=vs)
 
 
+def case_ds_labels(case):
+    """linked datasets whose megacomplexes declare the same labels in different orders"""
+    base = run_fit(*family(case["family"], irf=case["irf"], ds_order=case["order"], d2_perm=[0, 1, 2]))
+    twin = run_fit(*family(case["family"], irf=case["irf"], ds_order=case["order"], d2_perm=case["perm"]))
+    vs = compare(base, twin, {"dataset_order": case["order"], "d2_label_order": case["perm"], "family": case["family"], "irf": case["irf"]})
+    return core.ok(key=[case["family"], case["irf"], case["order"], case["perm"]], outcome=len(vs), violations=vs)
+
+
 def case_composition(case):
     """combined dataset matrix == per label sum of the megacomplex-scaled single matrices (per index)"""
     md, vals, _ = family("combo", irf=case["irf"], mc_order=case["order"])
@@ -252,7 +269,7 @@ def case_composition(case):
     return core.ok(key=[case["irf"], order], outcome=len(vs), violations=vs)
 
 
-CASE_FUNCS = {"permutation": case_permutation, "mc_order": case_mc_order, "ds_order": case_ds_order, "composition": case_composition}
+CASE_FUNCS = {"permutation": case_permutation, "mc_order": case_mc_order, "ds_order": case_ds_order, "ds_labels": case_ds_labels, "composition": case_composition}
 
 
 def run(run: core.Run):
@@ -283,6 +300,12 @@ def run(run: core.Run):
                 if list(o) != sorted(o):
                     do.append({"family": fam, "irf": irf, "order": list(o)})
     run.map("ds_order", do)
+    dl = []
+    for fam, irf in (("parallel", "none"), ("oscillation", "plain")):
+        for o in (["d1", "d2"], ["d2", "d1"], ["d1", "d2", "d3"], ["d3", "d2", "d1"]):
+            for pm in list(itertools.permutations(range(3)))[1:]:
+                dl.append({"family": fam, "irf": irf, "order": o, "perm": list(pm)})
+    run.map("ds_labels", dl)
     run.bounds = {"labels_per_megacomplex": "3-4 (5 K-matrix entries)", "megacomplexes_per_dataset": 4, "datasets": "2-3",
                   "irf": ["none", "plain", "dispersed"], "permutations": "all" if not quick else "all for n<=4, every 7th of the 5! K-matrix entry orders"}  # fmt: skip
     run.rule = (
